@@ -483,6 +483,9 @@ func c14ValidName(p *core.Prog, r *core.Run, vn *ssa.Function) {
 					noMore := false
 					for _, g := range p.Facts(ret.Block()) {
 						if g.Op == "false" {
+							if e2, ok := g.L.Val.(*ssa.Extract); ok && e2.Index == 2 && e2.Tuple == ssa.Value(cut) {
+								noMore = true
+							}
 							if ph, ok := g.L.Val.(*ssa.Phi); ok {
 								for _, e := range ph.Edges {
 									if e2, ok := e.(*ssa.Extract); ok && e2.Index == 2 && e2.Tuple == ssa.Value(cut) {
